@@ -7,7 +7,9 @@ its equivalence lemma (the text of `Lemma gen_<f>_eq` in coq/Proofs/C09_gen_equi
 regenerated definition in a scratch directory.  Outcome per variant: `refused`, `equivalent`, or `broken`;
 compared with what is expected:
     harmless rewrites must be `equivalent` or `refused` (never `broken`: that would be a false alarm),
-    semantic mutants must be `broken` or `refused` (never `equivalent`: that would be unsound)."""
+    semantic mutants must be `broken` or `refused` (never `equivalent`: that would be unsound),
+    known-limit entries are meaning-preserving rewrites the equivalence tactic does NOT absorb (loop fission /
+    fusion): they come out `broken`, i.e. the check would report `no-failing-input-found` on them."""
 import os
 import re
 import shutil
@@ -24,7 +26,7 @@ COQ = os.path.join(VERIF, "coq")
 REPO = os.environ.get("VERIF_REPO", "/repo")
 SCRATCH = os.environ.get("C09_SELFTEST_DIR", "/var/tmp/c09_gen_selftest")
 
-H, S = "harmless", "semantic"
+H, S, LIM = "harmless", "semantic", "known-limit"
 VARIANTS = [
     # ---------------- harmless rewrites: equivalent or refused
     ("h_rename_locals", H, "cxTwoPoint", "crossover.py", [
@@ -73,6 +75,21 @@ VARIANTS = [
     ("h_messy_len_locals", H, "cxMessyOnePoint", "crossover.py", [
         ("    cxpoint1 = random.randint(0, len(ind1))\n    cxpoint2 = random.randint(0, len(ind2))\n",
          "    n1 = len(ind1)\n    n2 = len(ind2)\n    cxpoint1 = random.randint(0, n1)\n    cxpoint2 = random.randint(0, n2)\n")]),
+    ("limit_pmx_init_two_loops", LIM, "cxPartialyMatched", "crossover.py", [
+        ("    for i in range(size):\n        p1[ind1[i]] = i\n        p2[ind2[i]] = i\n    # Choose crossover points",
+         "    for i in range(size):\n        p1[ind1[i]] = i\n    for i in range(size):\n        p2[ind2[i]] = i\n    # Choose crossover points")]),
+    ("limit_ordered_loop_fission", LIM, "cxOrdered", "crossover.py", [
+        ("            k1 += 1\n\n        if not holes2[temp2[(i + b + 1) % size]]:",
+         "            k1 += 1\n\n    for i in range(size):\n        if not holes2[temp2[(i + b + 1) % size]]:")]),
+    ("h_ordered_no_alias", H, "cxOrdered", "crossover.py", [
+        ("        if not holes1[temp1[(i + b + 1) % size]]:\n            ind1[k1 % size] = temp1[(i + b + 1) % size]",
+         "        if not holes1[ind1[(i + b + 1) % size]]:\n            ind1[k1 % size] = ind1[(i + b + 1) % size]")]),
+    ("h_ordered_hoisted_index", H, "cxOrdered", "crossover.py", [
+        ("        if not holes1[temp1[(i + b + 1) % size]]:\n            ind1[k1 % size] = temp1[(i + b + 1) % size]",
+         "        j = (b + i + 1) % size\n        if not holes1[temp1[j]]:\n            ind1[k1 % size] = temp1[j]")]),
+    ("h_uniformint_elif_to_else", H, "mutUniformInt", "mutation.py", [
+        ("    if not isinstance(low, Sequence):\n        low = repeat(low, size)\n    elif len(low) < size:\n        raise IndexError(\"low must be at least the size of individual: %d < %d\" % (len(low), size))\n    if not isinstance(up, Sequence):\n        up = repeat(up, size)\n    elif len(up) < size:\n        raise IndexError(\"up must be at least the size of individual: %d < %d\" % (len(up), size))\n\n    for i, xl, xu in zip(range(size), low, up):\n        if random.random() < indpb:\n            individual[i] = random.randint(xl, xu)",
+         "    if isinstance(low, Sequence):\n        if len(low) < size:\n            raise IndexError(\"low must be at least the size of individual: %d < %d\" % (len(low), size))\n    else:\n        low = repeat(low, size)\n    if isinstance(up, Sequence):\n        if size > len(up):\n            raise IndexError(\"up is too short\")\n    else:\n        up = repeat(up, size)\n\n    for i, xl, xu in zip(range(size), low, up):\n        if random.random() < indpb:\n            individual[i] = random.randint(xl, xu)")]),
     # ---------------- semantic mutants: broken or refused
     ("s_twopoint_second_range", S, "cxTwoPoint", "crossover.py", [
         ("    cxpoint1 = random.randint(1, size)\n    cxpoint2 = random.randint(1, size - 1)\n    if cxpoint2 >= cxpoint1:\n        cxpoint2 += 1\n    else:  # Swap the two cx points\n        cxpoint1, cxpoint2 = cxpoint2, cxpoint1\n\n    ind1[cxpoint1:cxpoint2], ind2",
@@ -188,7 +205,8 @@ def main():
     bad = 0
     with ThreadPoolExecutor(jobs) as ex:
         for name, kind, res in ex.map(lambda v: run_variant(v, sources), todo):
-            ok = (res.startswith("refused") or res == ("equivalent" if kind == H else "broken"))
+            ok = (res.startswith("refused") or res == ("equivalent" if kind == H else "broken")
+                  or (kind == LIM and res == "equivalent"))
             bad += not ok
             print("%-30s %-9s %-4s %s" % (name, kind, "ok" if ok else "BAD", res))
             sys.stdout.flush()
